@@ -1,7 +1,7 @@
 """C08 - conflict priorities are respected."""
 
 from tv.designs import gen_spec
-from tv.props._core_a import run_design
+from tv.props._core_a import run_design, tier_opts
 
 ID = "C08"
 ENGINE = "A"
@@ -22,7 +22,7 @@ def budget(tier):
 
 
 def strategy(tier):
-    return gen_spec(allow_rels=True, min_rels=1, sched="eager", max_trans=4, allow_same_trans_conf=False)
+    return gen_spec(**{**tier_opts(tier), **dict(allow_rels=True, min_rels=1, sched="eager", max_trans=4, allow_same_trans_conf=False)})
 
 
 def run_case(case):
